@@ -196,7 +196,7 @@ def _threads(M, c):
              "add-td", "rsub-td", "mul-float", "eq-native", "hash")
     M.quiet += 1
     try:
-        hist, st = conc.run(items, lambda it: ops(it[0], it[1], it[2]), nthreads=6, chunk=40)
+        hist, st = conc.run(items, lambda it: ops(it[0], it[1], it[2]), nthreads=6, chunk=40, tick=M.progress)
     finally:
         M.quiet -= 1
     for k_, v in st.items():
